@@ -43,9 +43,9 @@ def gen_lock_script(rng, tier):
     """Default mode (duplicates disallowed: the duplicate check re-enters the storage lock), many clients on the
     multi-thread runtime, one operation in six a storage-lock WRITER (close / force_update / free_excess): no
     operation may hang."""
-    tasks = rng.choice([16, 32, 64])
+    tasks = rng.choice([8, 16, 32])
     L = ['cfg K=4 dup=0 group=%d bloom=none init=eager runtime=mt maxrec=%d' % (rng.choice([2, 8]), rng.choice([30, 100000])), 'open', 'sleep 210']
-    L.append('par tasks=%d ops=%d keys=%d seed=%d kinds=%s base=1000' % (tasks, rng.choice([100, 200]), rng.choice([3, 50]), rng.randrange(1, 10**6), rng.choice(['WWWWWM', 'WWWM', 'WWRM'])))
+    L.append('par tasks=%d ops=%d keys=%d seed=%d kinds=%s base=1000' % (tasks, rng.choice([60, 100]), rng.choice([3, 50]), rng.randrange(1, 10**6), rng.choice(['WWWWWM', 'WWWWWWWM', 'WWRWWM'])))
     L.append('quiesce')
     L += ['R 00000001', 'counts', 'close']
     return '\n'.join(L) + '\n'
